@@ -113,6 +113,42 @@ def mir_run(cases, res):
                     res[c["id"]][3] = "skip:mir-timeout"
 
 
+def mir_static(cases, nshards=None):
+    """static checks of the Lean MIR model on the dump of every case's MIR (`drv_mir`, mode `static`).
+    Returns id -> dict(status, fns, ok, checked, fail=[labels]) ; status != "ok": the program did not compile / dump."""
+    nshards = nshards or min(NCPU, max(1, len(cases) // 50))
+    shards = [cases[i::nshards] for i in range(nshards)]
+
+    def work(sh):
+        out = {}
+        if not sh:
+            return out
+        inp = "".join(json.dumps({"id": c["id"], "src": c["src"], "scheduler": c.get("scheduler", False)}) + "\n" for c in sh)
+        p = run([os.path.join(BIN, "mir")], input=inp, timeout=3600)
+        lines = []
+        for l in p.stdout.splitlines():
+            f = l.split("\t")
+            if len(f) >= 3 and f[1] == "ok":
+                lines.append(f"{f[0]}\tstatic\t-\t{f[2]}\n")
+            elif len(f) >= 2:
+                out[f[0]] = {"status": f[1]}
+        q = run([os.path.join(LEANBIN, "drv_mir")], input="".join(lines), timeout=600)
+        for l in q.stdout.splitlines():
+            f = l.split("\t")
+            w = f[1].split(" ") if len(f) >= 2 else []
+            if len(w) >= 5 and w[0] == "stateok":
+                fail = w[4][len("fail="):]
+                out[f[0]] = {"status": "ok", "fns": int(w[1]), "ok": int(w[2]), "checked": w[3] == "checked=true",
+                             "fail": [x.split(":", 1)[1] for x in fail.split(",") if x]}
+            elif len(f) >= 2:
+                out[f[0]] = {"status": f[1]}
+        return out
+    res = {}
+    for r in parallel(shards, work, nproc=nshards):
+        res.update(r)
+    return res
+
+
 def mir_class(vm, wasm, model, mir):
     """cell of the agreement matrix for one program (raw outcome strings; wasm / model may be None or `-`)"""
     v = norm_impl(vm) if vm and vm.startswith("ok") else None
